@@ -279,6 +279,35 @@ def gridOf (ofN : Nat → F) (clen : F → Nat) : GridArg F → List F
 
 end grid
 
+/-! ### the caller's `sig_kwargs` dict: state that lives across calls
+
+`Analysis.generate_signal_events` writes the mean number of signal events into the options dict it
+was handed (`sig_kwargs.update(mean=mean_n_sig)`) and passes the dict on to the signal generator.
+With `sig_kwargs=None` a new dict is made per call; a dict object of the caller is *re-used* by
+every later call (`create_trial_data_file` hands the same object to `do_trials` for each point of
+its `mean_n_sig` grid).  The dict entry is therefore state: `none` = `None` was passed,
+`some e` = one dict object whose `'mean'` entry is `e`. -/
+
+section sigKwargs
+variable {F : Type} [BEq F] [OfNat F 0]
+
+/-- the mean the signal generator is called with, and the dict afterwards.  `overwrite` = the entry
+is set on every call (`update` / item assignment); `false` = only when missing (`setdefault`). -/
+def sigMean (overwrite : Bool) (kw : Option (Option F)) (mean : F) : F × Option (Option F) :=
+  if mean == 0 then (mean, kw)          -- returns before the dict is touched: no signal events
+  else match kw with
+    | none => (mean, none)
+    | some none => (mean, some (some mean))
+    | some (some e) => if overwrite then (mean, some (some mean)) else (e, some (some e))
+
+/-- the signal strengths the generator really gets along the grid loop of
+`create_trial_data_file(…, sig_kwargs=kw)` -/
+def effGrid (overwrite : Bool) : Option (Option F) → List (F × F) → List (F × F)
+  | _, [] => []
+  | kw, g :: rest => ((sigMean overwrite kw g.1).1, g.2) :: effGrid overwrite (sigMean overwrite kw g.1).2 rest
+
+end sigKwargs
+
 inductive FErr where
   /-- `do_trials` with `n = 0` (`result_list[0]`) -/
   | indexError
